@@ -1,6 +1,7 @@
 import Driver.Util
 import MockeryModel.Sem.Testify
 import MockeryModel.Gen.TestifyEmit
+import MockeryModel.Sem.TestifyExec
 open Lean Mockery.Sem.Testify
 
 /-! C03: the operation list of the generated Go driver, run through `Sem.Testify`. -/
@@ -59,6 +60,8 @@ def handle (input : Json) : Except String Json := do
       | none => false
     let nr := ((Driver.fldOpt m "results").bind (fun a => a.getArr?.toOption)).getD #[] |>.size
     ⟨name, np, variadic, nr⟩)
+  let shapes : List Mockery.Gen.TestifyEmit.Shape :=
+    (((Driver.fldOpt input "shapes").bind (fun a => a.getArr?.toOption)).getD #[]).toList.map shapeOf
   let ops ← Driver.fldArr input "ops"
   let mut mk : Mock := ⟨[], []⟩
   let mut trace : Array Json := #[]
@@ -82,9 +85,20 @@ def handle (input : Json) : Except String Json := do
       mk := expect sig mk k ords vars style ((Driver.fldNat e "times").toOption.getD 0)
     else
       let a : CallArgs := ⟨strList o "argToks", (Driver.fldStr o "varTok").toOption.getD "", strList o "varElemToks"⟩
-      let (mk', es) := invoke unroll sig mk a
+      -- the emitted statements of this method, interpreted (`Sem/TestifyExec`); `invoke` is what the theorems are about
+      let resTypes : List Int := (((methods.toList[mi]?).bind (fun m => Driver.fldOpt m "results")).bind (fun x => x.getArr?.toOption)).getD #[]
+        |>.toList.filterMap (fun x => x.getInt?.toOption)
+      let w : Mockery.Sem.TestifyExec.World :=
+        { mkSlice := fun elems => if elems == a.varElems then a.varSlice else "?slice",
+          isNilIface := fun v => v == "7#0" || v == "8#0" || v == "16#0",
+          zero := fun i => toString (resTypes.getD i (-1)) ++ "#0" }
+      let (mkS, esS) := invoke unroll sig mk a
+      let (mk', es) := match shapes[mi]? with
+        | some sh => Mockery.Sem.TestifyExec.invokeEmitted w { sh with unroll := unroll } mk a
+        | none => (mkS, esS)
       mk := mk'
       evs := es.map evStr
+      if es != esS || mk' != mkS then evs := evs ++ ["MODEL-SPLIT: emitted statements and invoke differ: " ++ joinSp (esS.map evStr)]
     trace := trace.push (Json.arr (evs.map Json.str).toArray)
     k := k + 1
   trace := trace.push (Json.arr #[Json.str (if assertExpectations mk then "cleanup met" else "cleanup unmet")])
